@@ -225,6 +225,22 @@ def emitC (sd : Stream → Nat → Nat → Stream × List String × Bool) (s : S
     | .error .assertFailed => s.panic "assertion failed: self.window_size.0 >= sz as i32 (connection)"
     | _ => s
 
+theorem emitC_store (sd : Stream → Nat → Nat → Stream × List String × Bool) (s : Streams) (id len : Nat)
+    (rest : List SFrame) :
+    (emitC sd s id len rest).store =
+      (s.modStream id fun st => { st with pendingSend := rest }).store.set
+        (sd ((s.modStream id fun st => { st with pendingSend := rest }).stream id) len
+          (s.modStream id fun st => { st with pendingSend := rest }).prio.maxBufferSize).1 := by
+  unfold ConnFlowP.emitC; dsimp only
+  split <;> split <;> simp only [store_modPrio, store_wake, store_setStream, panic_store]
+
+theorem emitC_flow (sd : Stream → Nat → Nat → Stream × List String × Bool) (s : Streams) (id len : Nat)
+    (rest : List SFrame) :
+    (emitC sd s id len rest).prio.flow = ((s.prio.flow.assignCapacity len).1.sendData len).1 := by
+  unfold ConnFlowP.emitC; dsimp only
+  split <;> split <;>
+    simp only [prio_modPrio, prio_wake, prio_setStream, panic_prio, modStream_prio]
+
 theorem SafeInv.emitC {sd : Stream → Nat → Nat → Stream × List String × Bool} (hsd : SdOk sd) {s : Streams}
     (h : SafeInv s) (id len : Nat) (rest : List SFrame)
     (h1 : len ≤ (s.stream id).sendFlow.available.asSize)
@@ -234,12 +250,8 @@ theorem SafeInv.emitC {sd : Stream → Nat → Nat → Stream × List String × 
     h.fr ((Fr.refl _).modStream _ _ (fun _ => ⟨rfl, rfl⟩))
   have hk := hsd ((s.modStream id fun st => { st with pendingSend := rest }).stream id) len
     (s.modStream id fun st => { st with pendingSend := rest }).prio.maxBufferSize
-  refine emit_safe hs1 id len (by rw [e]; exact h1) (by rw [e]; exact h2) _ hk.1 hk.2 _ ?_ ?_
-  · unfold ConnFlowP.emitC; dsimp only
-    split <;> split <;> simp only [store_modPrio, store_wake, store_setStream, panic_store]
-  · unfold ConnFlowP.emitC; dsimp only
-    split <;> split <;>
-      simp only [prio_modPrio, prio_wake, prio_setStream, panic_prio, modStream_prio]
+  refine emit_safe hs1 id len (by rw [e]; exact h1) (by rw [e]; exact h2) _ hk.1 hk.2 _ (emitC_store sd s id len rest) ?_
+  rw [emitC_flow, modStream_prio]
 
 /-- `popFrameC_succ` with the DATA arm folded into `emitC` -/
 theorem popFrameC_succ' (sd : Stream → Nat → Nat → Stream × List String × Bool) (fuel : Nat) (s : Streams) (maxLen : Nat) :
